@@ -65,9 +65,41 @@ struct World {
     refs: Refs,
 }
 
+thread_local! {
+    /// where to report a stall / deadlock of the scenario being executed: (replay path, result path, property, seed, run index, gen cfg json)
+    static STALL_SINK: std::cell::RefCell<Option<(String, String, String, u64, i64, J)>> = const { std::cell::RefCell::new(None) };
+}
+
 fn run_once(w: &mut World, plan: &SchedPlan, want_log: bool) -> SRun {
     let cfg = ExecCfg { want_log, check_mul_claims: plan.focus == "wnaf", stall_timeout: stall_timeout() };
-    run_plan(plan, &w.shared, &w.ref_shared, &mut w.refs, &cfg, &|_r| {})
+    let on_stall = |r: &SRun| {
+        // a library call never returned (or every thread is blocked): write the replay file and a
+        // minimal result; the process cannot continue (the stuck threads cannot be joined)
+        let what = r.stalled.clone().unwrap_or_default();
+        STALL_SINK.with(|s| {
+            if let Some((replay, result, property, seed, idx, cfgj)) = s.borrow().as_ref() {
+                let mut p = plan.clone();
+                p.schedule = Schedule::Explicit(r.decisions.clone());
+                let v = SViolation { invariant: "c20/no-deadlock-every-call-returns".into(), thread: 0, op_index: 0, op: "".into(), expected: "every library call returns".into(), observed: what.clone() };
+                let rj = J::obj()
+                    .set("format", J::Int(1))
+                    .set("property", J::s(property))
+                    .set("engine", J::s("sched"))
+                    .set("seed", J::Int(*seed as i64))
+                    .set("run_index", J::Int(*idx))
+                    .set("gen_cfg", cfgj.clone())
+                    .set("violation", v.to_json())
+                    .set("plan", p.to_json())
+                    .set("original_plan", plan.to_json())
+                    .set("prelude_run_indices", J::Arr(vec![]));
+                let _ = std::fs::write(replay, rj.pretty());
+                let res = J::obj().set("stalled", J::obj().set("replay", J::s(replay)).set("what", J::s(&what)).set("index", J::Int(*idx)).set("detail", v.to_json()));
+                let _ = std::fs::write(result, res.to_string());
+            }
+        });
+        eprintln!("STALL: {}", what);
+    };
+    run_plan(plan, &w.shared, &w.ref_shared, &mut w.refs, &cfg, &on_stall)
 }
 
 fn fails_same(w: &mut World, plan: &SchedPlan, class: &str) -> Option<SViolation> {
@@ -81,7 +113,7 @@ fn drop_thread(p: &SchedPlan, t: usize) -> SchedPlan {
     let mut c = p.clone();
     c.threads.remove(t);
     if let Schedule::Explicit(v) = &c.schedule {
-        let nv: Vec<usize> = v.iter().filter(|x| **x != t).map(|x| if *x > t { *x - 1 } else { *x }).collect();
+        let nv: Vec<usize> = v.iter().filter(|x| **x % 64 != t).map(|x| if *x % 64 > t { *x - 1 } else { *x }).collect();
         c.schedule = Schedule::Explicit(nv);
     }
     c
@@ -123,6 +155,9 @@ fn minimise(w: &mut World, plan: &SchedPlan, viol: &SViolation) -> (SchedPlan, S
         }
         // no faults, no seams, simplest schedule
         for t in 0..cur.threads.len() {
+            if t >= cur.threads.len() {
+                break;
+            }
             let mut c = cur.clone();
             c.threads[t].die_after = None;
             c.threads[t].stall_after = None;
@@ -137,9 +172,15 @@ fn minimise(w: &mut World, plan: &SchedPlan, viol: &SViolation) -> (SchedPlan, S
         attempt!(c);
         // fewer operations
         for t in 0..cur.threads.len() {
+            if t >= cur.threads.len() {
+                break;
+            }
             let mut i = cur.threads[t].ops.len();
             while i > 0 {
                 i -= 1;
+                if t >= cur.threads.len() || i >= cur.threads[t].ops.len() {
+                    break;
+                }
                 if cur.threads[t].ops.len() <= 1 && cur.threads.len() == 1 {
                     break;
                 }
@@ -174,6 +215,9 @@ fn minimise(w: &mut World, plan: &SchedPlan, viol: &SViolation) -> (SchedPlan, S
         for t in 0..cur.threads.len() {
             for i in 0..cur.threads[t].ops.len() {
                 for a in 0..cur.threads[t].ops[i].a.len() {
+                    if t >= cur.threads.len() || i >= cur.threads[t].ops.len() || a >= cur.threads[t].ops[i].a.len() {
+                        break;
+                    }
                     let v = cur.threads[t].ops[i].a[a];
                     for cand in [0usize, 1, v / 2] {
                         if cand < v {
@@ -241,6 +285,8 @@ pub fn cmd_sched(m: &HashMap<String, String>) -> i32 {
 
     let mut w = World { shared: Shared::build(cfg.with_256), ref_shared: Shared::build(cfg.with_256), refs: Refs::new() };
     let setup_s = t0.elapsed().as_secs_f64();
+    let _ = std::fs::create_dir_all(&replay_dir);
+    STALL_SINK.with(|s| *s.borrow_mut() = Some((format!("{}/{}-{}-stall-selfcheck.json", replay_dir, property, seed), out.clone(), property.clone(), seed, -1, cfg_json(&cfg))));
 
     let mut counters = Counters::default();
     let mut dg = Digest::new();
@@ -289,6 +335,9 @@ pub fn cmd_sched(m: &HashMap<String, String>) -> i32 {
             }
         }
         let plan = seeded_plan(seed, idx, &cfg);
+        STALL_SINK.with(|s| {
+            *s.borrow_mut() = Some((format!("{}/{}-{}-stall{}.json", replay_dir, property, seed, idx), out.clone(), property.clone(), seed, idx as i64, cfg_json(&cfg)))
+        });
         let r = run_once(&mut w, &plan, false);
         runs += 1;
         done_indices.push(idx);
@@ -296,6 +345,9 @@ pub fn cmd_sched(m: &HashMap<String, String>) -> i32 {
         decisions += r.decisions.len() as u64;
         dg.u64(idx);
         dg.u64(r.digest);
+        if m.contains_key("dump-digests") {
+            eprintln!("DIGEST {} {:016x} decisions={} blocked={} sync={}", idx, r.digest, r.decisions.len(), r.counters.get("threads_found_blocked_on_a_lock"), r.counters.get("sync_points_reached"));
+        }
         counters.merge(&r.counters);
         for t in &plan.threads {
             for o in &t.ops {
@@ -313,10 +365,11 @@ pub fn cmd_sched(m: &HashMap<String, String>) -> i32 {
         let mut sh = Digest::new();
         sh.u64(plan.threads.len() as u64);
         for d in &r.decisions {
-            sh.u64(*d as u64);
+            // quanta only matter where synchronisation points exist (instrumented build)
+            sh.u64(if crate::mc::instrumented() { *d as u64 } else { (*d % 64) as u64 });
         }
         sched_hashes.push(sh.finish());
-        if plan.threads.len() >= 2 && r.decisions.windows(2).any(|p| p[0] != p[1]) {
+        if plan.threads.len() >= 2 && r.decisions.windows(2).any(|p| p[0] % 64 != p[1] % 64) {
             nontrivial_runs += 1;
         }
         hist_hashes.extend(r.object_histories.iter().copied());
@@ -350,6 +403,9 @@ pub fn cmd_sched(m: &HashMap<String, String>) -> i32 {
         .set("pair_hashes", J::Arr(pair_hashes.iter().map(|h| J::s(&format!("{:x}", h))).collect()))
         .set("interleaved_runs", J::Int(nontrivial_runs as i64))
         .set("samples", J::Arr(samples))
+        .set("instrumented_build", J::Bool(crate::mc::instrumented()))
+        .set("sync_functions_in_library", J::u(crate::mc::sync_functions().0))
+        .set("sync_function_names", J::Arr(crate::mc::sync_functions().1.iter().map(|n| J::s(n)).collect()))
         .set("setup_s", J::Num(setup_s));
 
     let mut code = 0;
